@@ -126,9 +126,9 @@ def run(ctx):
         raise Exception('R17.5 positive control did not fire')
 
     # ---------------------------------------------------------------- R17.6 protocol
-    for conv in ('path2pathd', 'ellipse2pathd', 'polyline2pathd', 'polygon2pathd', 'rect2pathd', 'line2pathd'):
-        f = mdl.func('svg_to_paths.' + conv)
-        param = f.params()[0]
+    def element_uses(f, param, seen):
+        """uses of the element parameter outside the dict/Element common protocol; handing the element on to another function of the
+        package is followed into that function's corresponding parameter"""
         bad = []
         for n in ast.walk(f.node):
             if isinstance(n, ast.Name) and n.id == param and isinstance(n.ctx, ast.Load):
@@ -138,8 +138,25 @@ def run(ctx):
                      (isinstance(par, ast.Assign))
                 if isinstance(par, ast.Assign) and isinstance(par.value, ast.Name):
                     ok = True    # `points = polyline` (string form handled by isinstance)
+                if not ok and isinstance(par, ast.Call) and isinstance(par.func, ast.Name) and any(a is n for a in par.args):
+                    r_ = mdl.resolve_global(f.module, par.func.id)
+                    if r_ and r_[0] == 'func' and (r_[1].qualname, par.func.id) not in seen:
+                        callee = r_[1]
+                        idx = [i for i, a in enumerate(par.args) if a is n][0]
+                        ps = callee.params()
+                        if idx < len(ps):
+                            sub = element_uses(callee, ps[idx], seen | {(callee.qualname, par.func.id)})
+                            ok = not sub
+                            if sub:
+                                bad += ['%s -> %s' % (callee.name, b) for b in sub]
+                                continue
                 if not ok:
                     bad.append('L%d %s' % (n.lineno, norm(par)[:50]))
+        return bad
+    for conv in ('path2pathd', 'ellipse2pathd', 'polyline2pathd', 'polygon2pathd', 'rect2pathd', 'line2pathd'):
+        f = mdl.func('svg_to_paths.' + conv)
+        param = f.params()[0]
+        bad = element_uses(f, param, frozenset())
         ctx.record('R17.6', f.qualname, 'element used only via .get()', not bad,
                    detail='' if not bad else 'uses outside the dict/Element common protocol: ' + ', '.join(bad), where=where(f))
 
